@@ -343,7 +343,10 @@ done:
 	if !truncated {
 		for iter.Next() {
 			object := iter.Key().(string)
-			if matched := prefix.Match(object, &match); matched && !match.CommonPrefix {
+			// An upload that has not been listed yet, or a group of uploads whose
+			// common prefix has not been reported yet, is what the next page
+			// starts with:
+			if matched := prefix.Match(object, &match); matched && (!match.CommonPrefix || !seenPrefixes[match.MatchedPart]) {
 				truncated = true
 
 				// This is not especially defensive; it assumes the rest of the code works
